@@ -66,14 +66,13 @@ macro_rules! probe_impl {
                 }
                 let c = wave[index + self.len / 2];
                 if unsafe { STRICT } {
-                    let mut p = 0;
-                    while p < self.len {
-                        let want = c + (p as $t) - ((self.len / 2) as $t);
+                    let len = self.len;
+                    $crate::unroll32!(p, len, {
+                        let want = c + (p as $t) - ((len / 2) as $t);
                         if wave[index + p] != want {
                             unsafe { OFFLINE = true };
                         }
-                        p += 1;
-                    }
+                    });
                 }
                 c + (subindex as $t) / (self.n as $t)
             }
